@@ -26,7 +26,7 @@ def run_demo(wt, d, meta):
         rc, out = sh("go build -tags verif -o %s/csvq-demo . " % wt, cwd=wt)
         if rc != 0:
             return 99, out
-        rc, out = sh("sh %s %s/csvq-demo" % (os.path.join(d, "demo.sh"), wt), cwd=wt)
+        rc, out = sh("bash %s %s/csvq-demo" % (os.path.join(d, "demo.sh"), wt), cwd=wt)
         os.remove(os.path.join(wt, "csvq-demo"))
         return rc, out
     tests = [f for f in os.listdir(d) if f.endswith("_test.go")]
